@@ -220,28 +220,61 @@ def main(rep, tier, only):
             rep.ok("INH-1", "find_or_create_child", F.primary_site(fn), F.fn_name(fn), how="level-of-push-target")
         else:
             rep.fail("INH-1", "find_or_create_child", F.primary_site(fn), F.fn_name(fn), why=why)
-    # SET-1
+    # SET-1 -- decided on the paths of set() over a twice-unrolled traversal, however the iteration is written (range-for,
+    # explicit iterator loop): the range is make_pre_order(find_location_impl(...)), and node k of it gets level(_level), once
     for fn in L.method_fns(db, CTX, "set"):
-        u = fn["_unit"]
-        ok = False
-        why = "no range-for over make_pre_order(find_location_impl(...)) found"
-        lvl = fn["params"][1]["id"] if len(fn.get("params", [])) > 1 else None
-        for n in F.walk(fn.get("body"), into_lambdas=False):
-            if n.get("k") == "range_for":
-                rng = T.show(T.norm(u, n.get("range")))
-                if "make_pre_order" in rng and "find_location_impl" in rng:
-                    body = n.get("body")
-                    items = body.get("ch", []) if body.get("k") == "compound" else [body]
-                    for it in items:
-                        it = T.unwrap(u, it)
-                        if it is not None and it.get("k") == "call" and T.callee_qn(u, it) == NODE + "::level" and it.get("args"):
-                            a = T.unwrap(u, it["args"][0])
-                            root = T.show(T.norm(u, it.get("recv")))
-                            if a is not None and a.get("k") == "ref" and a["id"] == lvl and n["var"]["name"] in root:
-                                ok = True
-                            else:
-                                why = "the loop does not assign the given level to the visited node"
-        if ok:
+        why = None
+        lvl = fn["params"][1]["name"] if len(fn.get("params", [])) > 1 else None
+        scfg = sx.Config(inline_prefixes=("fcppt::algorithm::",), pure=("fcppt::container::tree::make_pre_order",), loop_bound=2, lvalues=True, iter_positions=True,
+                         iter_classes=("fcppt::iterator::base::",))
+        try:
+            ps = [sx.positions_as_elements(p_) for p_ in sx.Interp(db, scfg).paths(fn, this=("sym", "this"), limit=40)]
+        except sx.Unsupported as e:
+            rep.broken("C19 SET-1: context::set outside the interpreted fragment: %s" % e)
+            continue
+        sizes = set()
+        for p_ in ps:
+            if p_.outcome[0] != "return":
+                continue
+            rng = None
+            n = 0
+            for d, v in p_.decisions:
+                if not (isinstance(d, tuple) and d and d[0] == "more"):
+                    why = "the update depends on something other than 'there is another node in the traversal': %s" % sx.show(d)
+                    break
+                if rng is None:
+                    rng = d[1]
+                if d[1] != rng:
+                    why = "two different ranges are traversed"
+                    break
+                n += 1 if v else 0
+            if why:
+                break
+            rs = sx.show(rng) if rng is not None else ""
+            if rng is None or "make_pre_order(" not in rs or "find_location_impl" not in rs:
+                why = "the nodes updated are those of `%s`, not of make_pre_order(find_location_impl(location)): descendants that already exist keep their old level" % rs
+                break
+            sizes.add(n)
+            lev = [e for e in p_.events if e[0].split("<")[0] == NODE + "::level" and len(e[1]) == 2]
+
+            def node_of(t, p_=p_):
+                for _ in range(3):
+                    if isinstance(t, tuple) and t and t[0] == "ev":
+                        e = p_.events[t[1] - 1]
+                        if e[0].split("<")[0].endswith("::value") and len(e[1]) == 1:
+                            t = e[1][0]
+                            continue
+                    break
+                return t
+            got = [(node_of(e[1][0]), sx.show(e[1][1])) for e in lev]
+            want = [(("elem", rng, k), lvl) for k in range(n)]
+            if got != want:
+                why = "for a traversal of %d nodes the level is assigned to %s, expected to node 0 .. %d once each with the given level" % (
+                    n, [(sx.show(a_), b_) for a_, b_ in got], n - 1)
+                break
+        if not why and not ({0, 1, 2} <= sizes):
+            why = "not every traversal length (0, 1, 2 nodes) has a complete path"
+        if why is None:
             rep.ok("SET-1", "context::set", F.primary_site(fn), F.fn_name(fn), how="pre-order-update")
         else:
             rep.fail("SET-1", "context::set", F.primary_site(fn), F.fn_name(fn), why=why)
@@ -409,45 +442,59 @@ def main(rep, tier, only):
     # FMT: formatter chain order. Documented (examples/log/formatting.cpp, level_stream.hpp): object formatter ( location prefix ( level formatter ( text ) ) )
     for fn in db.fns("fcppt::log::format::chain"):
         u = fn["_unit"]
-        why = "chain is not combine(_parent, _child, (f1, f2) -> (x -> f1(f2(x))))"
-        names = [p_["name"] for p_ in fn.get("params", [])]
-        for n in F.walk(fn.get("body")):
-            if n.get("k") == "call" and T.callee_qn(u, n) == "fcppt::optional::combine" and len(n.get("args", [])) == 3:
-                a0, a1 = T.show(T.norm(u, n["args"][0])), T.show(T.norm(u, n["args"][1]))
-                lam = T.unwrap(u, n["args"][2])
-                if [a0, a1] != names or lam is None or lam.get("k") != "lambda" or len(lam.get("ops", [])) != 1:
-                    why = "combine is called with (%s, %s), expected (%s, %s)" % (a0, a1, names[0], names[1])
+        # decided on the four cases of (parent set?, child set?), however the combination is written (optional::combine, early
+        # returns): one missing -> the other one; both set -> a function whose call is parent(child(x)), evaluated symbolically
+        why = None
+        ccfg = sx.Config(inline_prefixes=("fcppt::optional::", "fcppt::cond"), loop_bound=2)
+        pa, ch = (p_["name"] for p_ in fn["params"][:2])
+
+        def find_closure(v, d=0):
+            if isinstance(v, sx.Closure):
+                return v
+            if isinstance(v, tuple) and d < 8:
+                for x_ in v:
+                    r_ = find_closure(x_, d + 1)
+                    if r_ is not None:
+                        return r_
+            return None
+        try:
+            ps = sx.Interp(db, ccfg).paths(fn)
+            seen_cases = set()
+            for p_ in ps:
+                dec = {sx.show(a_): b_ for a_, b_ in p_.decisions}
+                hp, hc = dec.get("has_value(%s)" % pa), dec.get("has_value(%s)" % ch)
+                if set(dec) - {"has_value(%s)" % pa, "has_value(%s)" % ch} or p_.outcome[0] != "return":
+                    why = "the result depends on %s" % sorted(dec)
                     break
-                outer = [p_["id"] for p_ in lam["ops"][0].get("params", [])]
-                inner = [x for x in F.walk(lam["ops"][0].get("body")) if x.get("k") == "lambda"]
-                if len(outer) != 2 or len(inner) != 1 or len(inner[0].get("ops", [])) != 1:
+                out = sx.show(p_.outcome[1])
+                for (vp, vc) in [(a_, b_) for a_ in ((hp,) if hp is not None else (True, False)) for b_ in ((hc,) if hc is not None else (True, False))]:
+                    seen_cases.add((vp, vc))
+                    if vp and vc:
+                        clo = find_closure(p_.outcome[1])
+                        if clo is None or not out.endswith(":some") or len(clo.node.get("ops", [])) != 1:
+                            why = "with both formatters set the result is %s, expected a composed function" % out
+                            break
+                        qs = sx.Interp(db, ccfg).paths_lambda(clo, clo.node["ops"][0], [("sym", "x")])
+                        calls = [e for e in qs[0].events if e[0].split("<")[0] == "fcppt::function::operator()"] if len(qs) == 1 else []
+                        shape = [[sx.show(a_) for a_ in e[1]] for e in calls]
+                        if len(qs) != 1 or len(qs[0].events) != 2 or shape != [["some_payload(%s)" % ch, "x"], ["some_payload(%s)" % pa, "#1:operator()"]] or sx.show(qs[0].outcome[1]) != "#2:operator()":
+                            why = "the composed formatter computes %s, expected parent(child(x)): the parent (outer) formatter is applied to the child's output" % shape
+                            break
+                    elif vp != vc:
+                        want = pa if vp else ch
+                        if out != want:
+                            why = "with only the %s formatter set the result is %s, expected that formatter" % ("parent" if vp else "child", out)
+                            break
+                    elif out not in (pa, ch) and not out.endswith(":none"):
+                        why = "with no formatter set the result is %s" % out
+                        break
+                if why:
                     break
-                iop = inner[0]["ops"][0]
-                rets = [r for r in F.walk(iop.get("body"), into_lambdas=False) if r.get("k") == "return"]
-                if len(rets) != 1:
-                    break
-                e = T.unwrap(u, rets[0]["e"])
-                def callee_ref(c):
-                    if c is None or c.get("k") != "call":
-                        return None
-                    r = T.unwrap(u, c.get("recv")) if c.get("recv") is not None else (T.unwrap(u, c.get("fn")) if c.get("fn") is not None else None)
-                    return r.get("id") if r is not None and r.get("k") == "ref" else None
-                o = callee_ref(e)
-                i_ = callee_ref(T.unwrap(u, (e.get("args") or [None])[0])) if e is not None and e.get("k") == "call" and e.get("args") else None
-                caps = {c.get("name"): c for c in inner[0].get("captures", [])}
-                # captured copies of f1 / f2 carry their own decl ids: compare by name
-                def nm(i):
-                    for x in F.walk(iop.get("body")):
-                        if x.get("k") == "ref" and x.get("id") == i:
-                            return x.get("name")
-                on, in_ = nm(o), nm(i_)
-                p1 = lam["ops"][0]["params"][0]["name"]
-                p2 = lam["ops"][0]["params"][1]["name"]
-                if on == p1 and in_ == p2:
-                    why = None
-                else:
-                    why = "the composed formatter is %s(%s(x)), expected parent(child(x)) = %s(%s(x))" % (on, in_, p1, p2)
-                break
+            if not why and len(seen_cases) != 4:
+                why = "not all four cases of (parent set, child set) have a path"
+        except sx.Unsupported as e:
+            rep.broken("C19 FMT: format::chain outside the interpreted fragment: %s" % e)
+            continue
         (rep.fail if why else rep.ok)("FMT", "format::chain", F.primary_site(fn), F.fn_name(fn), **({"why": why} if why else {"how": "parent . child"}))
         break
     for fn in L.method_fns(db, "fcppt::log::object"):
@@ -471,15 +518,77 @@ def main(rep, tier, only):
                                         {"why": "level_stream::log composes %s; documented: the additional (object) formatter is used first, i.e. chain(_additional_formatter, formatter())" % chains}))
     for fn in db.fns("fcppt::log::impl::tree_formatter"):
         u = fn["_unit"]
+        # decided on the paths over a twice-unrolled walk to the root, however the accumulation is written (algorithm::fold,
+        # a loop): nodes with an empty name are skipped, every other node k contributes chain(prefix(name of node k), state so
+        # far), so the result nests the ancestors' prefixes outside the descendants'
         why = None
-        folds = [n for n in F.walk(fn.get("body"), into_lambdas=False) if n.get("k") == "call" and T.callee_qn(u, n) == "fcppt::algorithm::fold"]
-        if len(folds) != 1 or "make_to_root(r_a0)" not in T.show(T.norm(u, folds[0]["args"][0])):
-            why = "the prefix is not a fold over make_to_root(_node)"
-        else:
-            chains = [n for n in F.walk(folds[0]["args"][2]) if n.get("k") == "call" and T.callee_qn(u, n) == "fcppt::log::format::chain"]
-            a = [T.show(T.norm(u, x)) for x in chains[0]["args"]] if len(chains) == 1 else []
-            if len(a) != 2 or "prefix(" not in a[0] or "r_la1" not in a[1] or "r_la1" in a[0]:   # fold lambda (element, state)
-                why = "each step is chain(%s): expected chain(prefix(name of the node), accumulated formatter) so that ancestors come first" % ", ".join(a)
+        tcfg = sx.Config(inline_prefixes=("fcppt::algorithm::", "fcppt::optional::", "fcppt::cond"),
+                         pure=("fcppt::container::tree::make_to_root", "fcppt::log::format::chain", "fcppt::log::format::prefix"), loop_bound=2)
+        try:
+            ps = sx.Interp(db, tcfg).paths(fn)
+        except sx.Unsupported as e:
+            rep.broken("C19 FMT: tree_formatter outside the interpreted fragment: %s" % e)
+            continue
+        node = fn["params"][0]["name"]
+        complete = set()
+        for p_ in ps:
+            if p_.outcome[0] != "return":
+                continue
+
+            def node_index(t, p_=p_):
+                for _ in range(8):
+                    if isinstance(t, tuple) and t and t[0] == "ev":
+                        e = p_.events[t[1] - 1]
+                        if len(e[1]) != 1:
+                            return None
+                        t = e[1][0]
+                        continue
+                    if isinstance(t, tuple) and t and t[0] in ("new",) and len(t) >= 4 and len(t[3]) == 1:
+                        t = t[3][0]
+                        continue
+                    break
+                if isinstance(t, tuple) and len(t) == 3 and t[0] == "elem" and sx.show(t[1]) == "make_to_root(%s)" % node:
+                    return t[2]
+                return None
+            n = 0
+            nonempty = []
+            for d, v in p_.decisions:
+                if isinstance(d, tuple) and d and d[0] == "more":
+                    if sx.show(d[1]) != "make_to_root(%s)" % node:
+                        why = "the walk is over %s, not from the node to the root" % sx.show(d[1])
+                        break
+                    n += 1 if v else 0
+                    continue
+                k = node_index(d) if isinstance(d, tuple) and d and d[0] == "ev" and p_.events[d[1] - 1][0].split("<")[0].endswith("::empty") else None
+                if k is None or k != n - 1:
+                    why = "the prefix depends on %s, expected only on whether the name of the visited node is empty" % sx.show(d)
+                    break
+                if not v:
+                    nonempty.append(k)
+            if why:
+                break
+            complete.add(n)
+            t = p_.outcome[1]
+            got = []
+            bad_shape = False
+            while isinstance(t, tuple) and len(t) == 3 and t[0] == "app" and t[1].split("<")[0].endswith("chain") and len(t[2]) == 2:
+                a0 = t[2][0]
+                inner = a0[3][0] if isinstance(a0, tuple) and len(a0) >= 4 and a0[0] == "new" and a0[2] == "some" and len(a0[3]) == 1 else None
+                k = node_index(inner[2][0]) if isinstance(inner, tuple) and len(inner) == 3 and inner[0] == "app" and inner[1].split("<")[0].endswith("prefix") and len(inner[2]) == 1 else None
+                if k is None:
+                    bad_shape = True
+                    break
+                got.append(k)
+                t = t[2][1]
+            if bad_shape or not sx.show(t).endswith(":none"):
+                why = "the result %s is not a nest of chain(prefix(name of a visited node), ...) ending in no formatter" % sx.show(p_.outcome[1])
+                break
+            if got != list(reversed(nonempty)):
+                why = "for non-empty names at nodes %s (0 = the node itself, counting towards the root) the prefixes nest as %s from the outside in; expected %s: ancestors come first" % (
+                    nonempty, got, list(reversed(nonempty)))
+                break
+        if not why and not ({0, 1, 2} <= complete):
+            why = "not every walk length (0, 1, 2 nodes) has a complete path"
         (rep.fail if why else rep.ok)("FMT", "tree_formatter", F.primary_site(fn), F.fn_name(fn), **({"why": why} if why else {"how": "fold to root: chain(prefix(name), state)"}))
         break
     rep.explanation = ("Lockset argument made structural: all accesses to the node tree's child lists happen inside functions "
